@@ -9,23 +9,23 @@ CHECKS = {
     # id: (engine, category, technique, text, design_ref, note)
     "C01": ("hx", "model_checking",
             "bounded exhaustive exploration of operation histories on the real tree vs reference map (explicit-state, re-execution)",
-            "Every history over {put, delete, batch, rotate, flush, leveled/major/move-down/pull-down compaction with watermark 0 or the largest legal one, reopen} within the per-class budgets, from every seed layout, is replayed on the real Tree; get/contains_key/size_of/get_internal_entry at SeqNo::MAX and the visible seqno must equal the model, cold and warm, under three physical configurations.",
+            "Every history over {put, delete, batch, rotate, flush, leveled/major/move-down/pull-down compaction with watermark 0 or the largest legal one, reopen} within the per-class budgets, from every seed layout, is replayed on the real Tree; get/contains_key/size_of/get_internal_entry at SeqNo::MAX and the visible seqno must equal the model, cold and warm, under three physical configurations; scenarios include a workload loop, data parked in L5/L6 before a leveled compaction, and 600-entry blocks with a hash index; every scan is also consumed from both ends of one iterator.",
             "7 C01", HX_NOTE),
     "C02": ("hx", "model_checking",
             "bounded exhaustive exploration of operation histories with held snapshots vs reference map",
-            "Histories additionally take/release up to two snapshots (including one at seqno 0), clear, drop_range and ingest; after every step every held snapshot's point reads, full scans (both directions), len and is_empty must equal the model's frozen view; watermarks are 0 or min(held)-1.",
+            "Histories additionally take/release up to two snapshots (including one at seqno 0), clear, drop_range and ingest; after every step every held snapshot's point reads, full scans (both directions), len and is_empty must equal the model's frozen view; watermarks are 0 or min(held)-1; a compaction filter plays a client that opens a snapshot in the middle of a merge; standard and key-value-separated trees.",
             "7 C02", HX_NOTE),
     "C04": ("hx", "model_checking",
             "bounded exhaustive exploration of histories with reopen at every position vs reference map",
-            "Reopen is allowed at every position up to 2 (3) times on standard and key-value-separated trees; after it every read equals the model restricted to flushed/ingested writes (value and seqno), table/blob counts, highest persisted seqno, gc stats and the level/run/table shape are unchanged, and the exploration continues writing, flushing and compacting on the reopened tree (any error or id collision is a violation).",
+            "Reopen is allowed at every position up to 2 (3) times on standard and key-value-separated trees; after it every read equals the model restricted to flushed/ingested writes (value and seqno), table/blob counts, highest persisted seqno, gc stats and the level/run/table shape are unchanged, and the exploration continues writing, flushing and compacting on the reopened tree (any error or id collision is a violation); in every state the file name the next table / blob file will get must be free; scenarios include merges below L0 (newest ids in deep levels) and flushes whose whole content is evicted.",
             "7 C04", HX_NOTE),
     "C05": ("crash", "fault_enumeration",
             "exhaustive crash-point x persistence-outcome enumeration over the strace mutation log, recovery by the real Config::open",
-            "One traced run per history yields every create/write/truncate/fsync/rename/unlink/mkdir; after each of them every crash image a POSIX file system may leave (per directory every subset of unsynced entry operations, per file every unsynced write boundary and a torn last write; strict POSIX and ext4-like fsync semantics) is built, de-duplicated, and recovered in a worker process: it must open, read as the state before or after the interrupted op (exactly the state after it once the op had returned), and accept a write, flush and major compaction.",
+            "One traced run per history yields every create/write/truncate/fsync/rename/unlink/mkdir; after each of them every crash image a POSIX file system may leave (per directory every subset of unsynced entry operations, per file every unsynced write boundary and a torn last write; strict POSIX and ext4-like fsync semantics) is built, de-duplicated, and recovered in a worker process: it must open, read as the state before or after the interrupted op (exactly the state after it once the op had returned), and then (A) accept a major compaction, reopen and read exactly what the recovery read, (B) accept a write, flush and major compaction, reopen and still read the old keys the same.",
             "6.1, 7 C05", "Trusted base: the file-system model (engine/src/crash.rs), self-checked per history by replaying the whole log and comparing with the real directory; strace; the tree directory's own entry in its parent is assumed durable."),
     "C06": ("sched", "model_checking",
             "stateless exploration of thread schedules of the real tree under a controlled scheduler (lock-acquisition scheduling points, real-lock probing), iterative preemption bounding",
-            "Scenarios of 3-5 real threads (writer, rotator/flusher, leveled / major compaction, drop_range, readers) on a preloaded multi-level tree are executed under every schedule with at most 2 (quick) / 3 (thorough) preemptions: every read and scan at a snapshot the writer has published equals the model of the writer's log, no call errs or panics, no deadlock, all acknowledged writes are present at the end, nothing stays hidden, every version in the history passes the C07 audit, and the tree reopens to exactly the flushed state.",
+            "Scenarios of 3-5 real threads (writer, rotator/flusher, leveled / major compaction, up to three pull-down compactions in flight, drop_range, readers) on a preloaded multi-level tree are executed under every schedule with at most 2 (quick) / 3 (thorough) preemptions: every read and scan at a snapshot the writer has published equals the model of the writer's log, no call errs or panics, no deadlock, all acknowledged writes are present at the end, nothing stays hidden, every version in the history passes the C07 audit, and the tree reopens to exactly the flushed state.",
             "4, 7 C06", "Trusted base: the scheduler (engine/src/sched.rs) and the add-only hook lines before each lock acquisition; sequentially consistent interleavings at those points only; replay of every reported schedule must reproduce it twice."),
     "C07": ("hx", "model_checking",
             "bounded exhaustive exploration of histories with a structural audit of every published version",
@@ -33,15 +33,15 @@ CHECKS = {
             "7 C07", HX_NOTE),
     "C03": ("hx", "model_checking",
             "bounded exhaustive exploration of histories; per distinct physical layout every bound pair x next/next_back interleaving vs reference map",
-            "Layouts (memtable only, several L0 runs, multi-table runs, multi-block tables, tombstones, several versions per key; keys 61, 61FF, 61FFFF, 62, FF, FFFF) are collected by the history exploration; for each distinct layout (sequence numbers rank-normalised) and each snapshot every pair of bounds from {unbounded, included, excluded} x {keys, gaps, below, above} is scanned under every next/next_back interleaving (canonical patterns for long results in the quick tier), plus every key prefix, first/last/len/is_empty, key()/size() guards and every overlay memtable over two keys.",
+            "Layouts (memtable only, several L0 runs, multi-table runs, multi-block tables, tombstones, several versions per key; keys 61, 61FF, 61FFFF, 62, FF, FFFF) are collected by the history exploration; for each distinct layout (sequence numbers rank-normalised) and each snapshot every pair of bounds from {unbounded, included, excluded} x {keys, gaps, below, above} is scanned under every next/next_back interleaving (canonical patterns for long results in the quick tier), plus every key prefix, first/last/len/is_empty, key()/size() guards and every overlay memtable over two keys x (tree snapshot, overlay watermark) combinations incl. an overlay read over an older held snapshot.",
             "7 C03", HX_NOTE),
     "C08": ("hx", "model_checking",
             "bounded exhaustive exploration of histories on a BlobTree with a standard-tree twin, the reference map and pointer resolution",
-            "The same history is run on a key-value-separated tree and replayed on a standard tree; get/contains_key/size_of/scans/len/guard sizes must be identical at MAX, the visible seqno and every held snapshot, both must equal the model, and every Indirection entry of every table of every version in the history must resolve through that version's blob files to the bytes written for that (key, seqno). Configurations: thresholds 1/16/1000 x blob file target 1/64MiB x staleness 0/0.25/1 x age cutoff 0.25/1.",
+            "The same history is run on a key-value-separated tree and replayed on a standard tree; get/contains_key/size_of/scans/len/guard sizes must be identical at MAX, the visible seqno and every held snapshot, both must equal the model, and every Indirection entry of every table of every version in the history must resolve through that version's blob files to the bytes written for that (key, seqno). Configurations: thresholds 1/16/1000 x blob file target 1/64MiB x staleness 0/0.25/1 x age cutoff 0.25/1, plus relocation scenarios (shared blob files rewritten at once; a relocation that rotates to a new blob file half-way; a file first marked stale and rewritten by a later compaction).",
             "7 C08", HX_NOTE + " Blob/data/index compression none and lz4 (one relocating scenario each)."),
     "C09": ("hx", "model_checking",
             "bounded exhaustive exploration of histories on a BlobTree with recomputation of garbage from a pointer scan",
-            "After every step the pointers of all tables are scanned: per blob file gc_stats (len, bytes, on_disk_bytes) must equal item_count/total bytes minus what is still pointed to, stale_blob_bytes must be their sum, each table's linked_blob_files must equal its own pointers, no pointed-to file may be missing from the version or the disk, a file that was dead before a merge commit (or a drop that removed tables) must be gone after it, and the statistics must be unchanged across reopen.",
+            "After every step the pointers of all tables are scanned: per blob file gc_stats (len, bytes, on_disk_bytes) must equal item_count/total bytes minus what is still pointed to, stale_blob_bytes must be their sum, each table's linked_blob_files must equal its own pointers, no pointed-to file may be missing from the version or the disk, a file that was dead before a merge commit (or a drop that removed tables) must be gone after it, and the statistics must be unchanged across reopen; thorough adds one 72 MB ingestion whose table writer rotates, followed by drops of either table, a major compaction and reopen.",
             "7 C09", HX_NOTE),
     "C10": ("corrupt", "fault_enumeration",
             "exhaustive single-corruption enumeration (every byte x bit flips / 0x00 / 0xFF / every truncation) with cold reopen in worker processes",
@@ -49,7 +49,7 @@ CHECKS = {
             "6.3, 7 C10", "Trusted base: the worker protocol, the pristine baseline computed by the same workload code. One corruption per mutant."),
     "C11": ("cfgmc", "model_checking",
             "exhaustive enumeration of the physical-configuration product x fixed histories on the real tree, differential against the default configuration and the reference map",
-            "Six layout-rich histories (two L0 tables with snapshots, levels + sealed memtables, ingestion + reopen, blob overwrites with relocation, two bulk histories of 400/700 keys) are run under every configuration of block size x restart interval x hash ratio x index/filter partitioning x index/filter pinning x filter policy x expect_point_read_hits x cache capacity x descriptor table x compression none/lz4 (quick: Hamming distance <= 3 from the default, thorough: the full product of 20736); every answer must equal the model and the default-configuration run, cold and warm; two and three trees with coinciding table ids share one cache (0 / 4 KiB / 16 MiB) and descriptor table (none / 1 / 256) with interleaved reads, and a second handle is opened on a live directory.",
+            "Six layout-rich histories (two L0 tables with snapshots, levels + sealed memtables, ingestion + reopen, blob overwrites with relocation, two bulk histories of 400/700 keys) are run under every configuration of block size x restart interval x hash ratio x index/filter partitioning x index/filter pinning x filter policy x expect_point_read_hits x cache capacity x descriptor table x compression none/lz4 (quick: Hamming distance <= 4 from the default = 2099 configurations, thorough: the full product of 20736); every answer (point reads, forward / reverse scans, scans consumed from both ends, sub-range, prefix, len) must equal the model and the default-configuration run, cold and warm; two and three trees with coinciding table ids share one cache (0 / 4 KiB / 16 MiB) and descriptor table (none / 1 / 256) with interleaved reads, and a second handle is opened on a live directory.",
             "7 C11", HX_NOTE + " The engine builds the crate with its optional lz4 feature so that compression none/lz4 is one of the dimensions."),
     "C12": ("tablemc", "model_checking",
             "bounded exhaustive enumeration of item streams x 324 writer settings x recover variants x probes on the real table::Writer / Table",
@@ -57,19 +57,19 @@ CHECKS = {
             "7 C12", "Trusted base: the stream itself is the specification; harness; bounded stream length."),
     "C13": ("hx", "model_checking",
             "bounded exhaustive exploration of single-delete-disciplined histories vs model with weak delete read as delete",
-            "The generator enforces put/weak-delete alternation per key; the model treats remove_weak as remove; all point reads and scans at MAX, the visible seqno and every held snapshot must agree under every interleaving of rotate/flush/compactions/reopen and both watermarks.",
+            "The generator enforces put/weak-delete alternation per key; the model treats remove_weak as remove; all point reads and scans at MAX, the visible seqno and every held snapshot must agree under every interleaving of rotate/flush/compactions/reopen and both watermarks, including a key whose first value already lies in the last level while later weak deletes and values meet in partial merges above it.",
             "7 C13", HX_NOTE),
     "C14": ("hx", "model_checking",
             "bounded exhaustive exploration of histories with ingestions of every batch over two keys vs reference map",
-            "Every batch over {a,b} x {absent,value,tombstone} (empty included) is ingested between writes, snapshots, flushes, compactions and reopen; the model stamps the batch with the ingestion's seqno; snapshots taken before see nothing of it, later ones all of it, later writes win, memtable data stays readable, everything survives reopen.",
+            "Every batch over {a,b} x {absent,value,tombstone} (empty included) is ingested between writes, snapshots, flushes, compactions and reopen; the model stamps the batch with the ingestion's seqno; snapshots taken before see nothing of it, later ones all of it, later writes win, memtable data stays readable, everything survives reopen; also five-key batches inside one data block (scans consumed from both ends) and a key-value-separated tree.",
             "7 C14", HX_NOTE),
     "C15": ("hx", "model_checking",
             "bounded exhaustive exploration of histories with every drop_range bound pair / clear from nine seed layouts vs reference map",
             "From nine layouts over keys a-d (memtable only, one table, one table per key, two runs, tombstone table over values, table + memtable) every drop_range over {unbounded, included, excluded} x {keys, gaps, below, above} (empty and inverted included) or clear is combined with a snapshot before/after, one more write, (thorough) one maintenance op and reopen: keys outside the range and every earlier snapshot are exact, keys inside may only return values written for them, inverted ranges change nothing, clear empties later snapshots only.",
             "7 C15", HX_NOTE),
     "C16": ("fault", "fault_enumeration",
-            "every file-system call of every op failed once via strace fault injection, two continuations each",
-            "For every history and every syscall an op issues (reads included), one run per errno (ENOSPC/EIO) with exactly that call failing: if the op returns Err every read/scan at MAX and at held snapshots must equal what it was before the call, nothing may stay hidden, the op must succeed when repeated, the rest of the history must reach the clean run's states, and an immediate reopen must show the state before or after the call; an absorbed fault must leave the run equal to the clean run; a panic or abort is a violation.",
+            "every file-system call of every op failed once via strace fault injection, three continuations each (retry / reopen / go on without retry)",
+            "For every history and every syscall an op issues (reads included), one run per errno (ENOSPC/EIO) with exactly that call failing: if the op returns Err every read/scan at MAX and at held snapshots must equal what it was before the call, nothing may stay hidden, the op must succeed when repeated, the rest of the history must reach the clean run's states, an immediate reopen must show the state before or after the call, and when the call is not repeated the rest of the history must reach the states of the history without that op (also after a final reopen); an absorbed fault must leave the run equal to the clean run; a panic or abort is a violation.",
             "6.2, 7 C16", "Trusted base: strace inject semantics (the call is not executed and returns the error), syscall ordinals from a clean traced run of the deterministic subject. Single fault per run."),
     "C17": ("hx", "model_checking",
             "bounded exhaustive exploration of histories x verdict functions with an instrumented compaction filter feeding the reference map",
@@ -77,7 +77,7 @@ CHECKS = {
             "7 C17", HX_NOTE),
     "C18": ("hx", "model_checking",
             "bounded exhaustive exploration of histories with exact recomputation of the seqno marks from stored items",
-            "After every step get_highest_persisted_seqno / get_highest_memtable_seqno / get_highest_seqno are compared with the maximum over a full scan of every table (global seqno included) and every memtable, on standard and blob trees (also without filters / with expect_point_read_hits), with ingestion, clear, drop_range and reopen in the alphabet; plus a 3-thread scenario under the controlled scheduler (every schedule with <= 2 / 3 preemptions): while a flush moves data from memtable to table the marks are never below a write acknowledged before the call.",
+            "After every step get_highest_persisted_seqno / get_highest_memtable_seqno / get_highest_seqno are compared with the maximum over a full scan of every table (global seqno included) and every memtable, on standard and blob trees (also without filters / with expect_point_read_hits), with ingestion, clear, drop_range, reopen and an overtaking second writer (lower seqno inserted after a higher one) in the alphabet; plus a 3-thread scenario under the controlled scheduler (every schedule with <= 2 / 3 preemptions): while a flush moves data from memtable to table the marks are never below a write acknowledged before the call.",
             "7 C18", HX_NOTE),
     "C19": ("hx", "model_checking",
             "bounded exhaustive exploration of append-only histories x FIFO (limit, ttl) derived from the current table sizes, with a clock seam",
